@@ -13,6 +13,7 @@ LEVEL_TEXT = {
     "C08": "Fault enumeration: every resource-creating system call of every sampled lifecycle program is made to fail with each plausible errno in a run of its own, a real fork()+xcm_cleanup is placed at every operation boundary, pairs of failures are sampled; conservation of descriptors, heap, OpenSSL objects and files, the foreign-descriptor monitor and the abort trap decide. Complete for single faults within each sampled program (up to the stated cap).",
     "C10": "Seeded search over (socket phase x attribute name x API variant x capacity): the phases a socket can be held in only under a simulator (resolving, SYN pending, handshaking) are part of the space; exact-size heap buffers under ASan, canaries, errno table and before/after attribute snapshots decide.",
     "C11": "Seeded search over (attribute x admissible value x phase x socket role); the decisive observation is the simulated kernel socket's option table and peer address at a quiescent point, compared with the values the API accepted.",
+    "C13": "Seeded search over resolver answers x per-address network behaviour x algorithm x timeouts x event-loop style, in simulated time (minutes of connect and DNS timeouts cost microseconds); an executable reference model of single / sequential / happy-eyeballs decides outcome, errno, legal connect() order and deadline.",
     "C16": "Readiness read directly from the simulated epoll object; spin compression turns a permanently readable descriptor without progress into an exact verdict; xcm_fd stability sampled around every API call.",
     "C17": "Ledger comparison after every API call over generated traffic histories incl. truncation, refusal, partial flush.",
 }
@@ -22,7 +23,6 @@ NOT_APPLICABLE = {
     "C12": "pure codec (xcm_addr_make_*/parse_*): a function of its arguments with no schedule, clock, fault or second party - nothing for a simulator to control (DESIGN.md 3, C12)",
     "C19": "sequential ADT (xcm_attr_map) and pure parser (attr_path): no schedule, clock, fault or interleaving; reference-model equivalence over operation histories is input generation, not simulation (DESIGN.md 3, C19)",
     "C09": "check not built yet at this commit (planned: generated PKI x policy matrix, DESIGN.md 3 C09)",
-    "C13": "check not built yet at this commit (planned: stub resolver + per-address network behaviour, DESIGN.md 3 C13)",
     "C14": "check not built yet at this commit (planned: raw and libxcmctl control clients, DESIGN.md 3 C14)",
     "C15": "check not built yet at this commit (planned: real threads under the seeded scheduler with ThreadSanitizer, DESIGN.md 3 C15)",
     "C18": "check not built yet at this commit (planned: simulated file-system histories x connection set-up, DESIGN.md 3 C18)",
